@@ -19,6 +19,10 @@ pub struct Case {
     pub sc: Scenario,
     /// Random multi-fault plans: each a list of (position in the trace as a 16-bit fraction, kind).
     pub multi: Vec<Vec<(u16, u8)>>,
+    /// If set: before the backup, an empty file sits at the path of the i-th block this
+    /// backup is going to write (what a killed write of the same content leaves behind).
+    #[serde(default)]
+    pub leftover: Option<u16>,
 }
 
 fn strategy(tier: Tier) -> BoxedStrategy<Case> {
@@ -33,8 +37,9 @@ fn strategy(tier: Tier) -> BoxedStrategy<Case> {
             ],
             n_multi..=n_multi,
         ),
+        prop::option::weighted(0.4, any::<u16>()),
     )
-        .prop_map(|(sc, multi)| Case { sc, multi })
+        .prop_map(|(sc, multi, leftover)| Case { sc, multi, leftover })
         .boxed()
 }
 
@@ -61,6 +66,7 @@ fn check_plan(base: &Base, sc: &Scenario, cx: &Cx, plan: Plan, n: &mut u32) -> C
         }
         match after.get(p) {
             Some(b) if b == bytes => {}
+            Some(_) if bytes.is_empty() && p.starts_with("d/") => {} // an empty leftover may be completed
             Some(_) => fail!("C04/existing-file-modified", "{p} changed during a failing backup"),
             None => fail!("C04/existing-file-removed", "{p} disappeared during a failing backup"),
         }
@@ -148,7 +154,26 @@ fn run(case: &Case, cx: &mut Cx) -> CaseResult {
     let sc = &case.sc;
     let base = Base::build(&cx.scratch, sc);
     std::fs::create_dir_all(cx.dir("r")).unwrap();
-    let trace = base.backup_trace(sc.opts);
+    let mut trace = base.backup_trace(sc.opts);
+    let mut has_leftover = false;
+    if let Some(frac) = case.leftover {
+        let block_writes: Vec<String> = trace
+            .iter()
+            .filter(|l| l.key.verb == V::Write && l.key.path.starts_with("d/"))
+            .map(|l| l.key.path.clone())
+            .collect();
+        if !block_writes.is_empty() {
+            let p = &block_writes[(frac as usize * block_writes.len()) >> 16];
+            for root in [&base.pristine, &base.world.arch] {
+                let f = root.join(p);
+                std::fs::create_dir_all(f.parent().unwrap()).unwrap();
+                std::fs::write(&f, b"").unwrap();
+            }
+            has_leftover = true;
+            // the trace of the backup over this state (it now overwrites that file)
+            trace = base.backup_trace(sc.opts);
+        }
+    }
     let keys: Vec<Logged> = if cx.tier == Tier::Quick { scen::thin(&trace, 60) } else { trace.clone() };
     let only: Option<serde_json::Value> = cx.only_inner.clone();
     let mut n = 0u32;
@@ -198,6 +223,7 @@ fn run(case: &Case, cx: &mut Cx) -> CaseResult {
     cx.add_evals(evals);
     cx.inner_nontrivial += nontrivial;
     cx.label_if(!base.world.bands.is_empty(), "has-previous-versions");
+    cx.label_if(has_leftover, "zero-length-block-leftover");
     let combined_flushes = trace.iter().filter(|l| l.key.verb == V::Write && l.key.path.starts_with("d/")).count();
     cx.label_if(combined_flushes >= 3, "3+block-writes");
     Ok(())
@@ -210,7 +236,7 @@ fn enumerate(tier: Tier, idx: u32, of: u32, cx: &mut Cx) -> CaseResult {
         return Ok(());
     }
     let (opts, tree) = crate::probes::many_hunks_tree(10_012);
-    let sc = Scenario { initial: tree, prefix: vec![], edits: vec![], opts };
+    let sc = Scenario { initial: tree, prefix: vec![], edits: vec![], opts, id_spread: 1 };
     let sub = cx.dir("many-hunks");
     std::fs::create_dir_all(sub.join("r")).unwrap();
     let cx2 = crate::engine::sub_cx(cx, sub.clone());
@@ -244,7 +270,7 @@ pub fn prop() -> Prop<Case> {
     Prop {
         id: "C04",
         level: "fault_enumeration",
-        rule: "scenario as C03 (small blocks/caps so several combined-block flushes happen) generated by proptest; inner domain enumerated per scenario: every operation of the logged storage trace of the backup (reads, lists, metadata, writes, create_dir; quick thins to <=60 evenly spaced) x {not-found, already-exists, permission-denied, other} as a single injected failure, plus generated multi-fault plans (1-7 failing positions, a quarter of them dense with 8-39). Oracle per plan: no panic; every file that existed before is byte-identical afterwards; every File entry the independent decoder finds in any band reassembles to exactly that path's bytes in the tree that band was made from (never dangling, never another file's); if the backup reports complete success (Ok, no monitor error, stats.errors==0) the band is closed and restores exactly; a closed band that does not restore exactly implies an error was reported. Non-trivial = the failing operation is a write/create_dir under d/ or the band directory, or a read of an index hunk, or a plan with >=2 faults; counted per (scenario, plan), distinct by construction. Fixed scale probe per run: a backup writing 10 015 index hunks with a fault on the creation of the second index sub-directory and on its first hunk (thorough: three more)",
+        rule: "scenario as C03 (small blocks/caps so several combined-block flushes happen) generated by proptest, in 40% of the cases with an empty file already sitting at the path of one of the blocks the backup is going to write; inner domain enumerated per scenario: every operation of the logged storage trace of the backup (reads, lists, metadata, writes, create_dir; quick thins to <=60 evenly spaced) x {not-found, already-exists, permission-denied, other} as a single injected failure, plus generated multi-fault plans (1-7 failing positions, a quarter of them dense with 8-39). Oracle per plan: no panic; every file that existed before is byte-identical afterwards; every File entry the independent decoder finds in any band reassembles to exactly that path's bytes in the tree that band was made from (never dangling, never another file's); if the backup reports complete success (Ok, no monitor error, stats.errors==0) the band is closed and restores exactly; a closed band that does not restore exactly implies an error was reported. Non-trivial = the failing operation is a write/create_dir under d/ or the band directory, or a read of an index hunk, or a plan with >=2 faults; counted per (scenario, plan), distinct by construction. Fixed scale probe per run: a backup writing 10 015 index hunks with a fault on the creation of the second index sub-directory and on its first hunk (thorough: three more)",
         assumptions: &[
             "an injected failure has no side effect on the directory (the operation is not attempted)",
             "faults are injected at transport-operation granularity via the verif_hooks interceptor",
